@@ -7,6 +7,7 @@ Programs == CASE Family = "nest" -> NestFamily(Depth, {2})
               [] Family = "ctrl" -> CtrlFamily({2, 5})
               [] Family = "nd" -> NdFamily({2, 3})
               [] Family = "ho" -> HoFamily(Depth, {2, 3})
+              [] Family = "mix" -> MixFamily(Depth)
               [] Family = "ext1" -> Ext1Family(Depth, {2})
               [] Family = "ext2" -> Ext2Family(Depth, {2})
               [] Family = "ckpt" -> CkptFamily({2, 3})
